@@ -112,7 +112,7 @@ theorem maybeCleanup_find (cfg : Cfg) (lt : κ → κ → Bool) (F : Follower κ
     cases hf : find? F.streams k with
     | none => simp
     | some s =>
-      simp only [Option.filter_some, Option.some.injEq, exists_eq_left', false_or]
+      simp only [Option.filter_some, Option.some.injEq, exists_eq_left']
       by_cases hx : expired cfg ts (k, s) = true <;> simp [hx]
   · simp only [hd, if_false, false_and, or_false]
 
